@@ -65,12 +65,21 @@ func parseVersion1(reader *bufio.Reader) (*Header, error) {
 		return nil, ErrCantReadProtocolVersionAndCommand
 	}
 	tokens := strings.Split(line[:len(line)-2], SEPARATOR)
-	if len(tokens) < 6 {
+
+	header := initVersion1()
+
+	// "PROXY UNKNOWN" (short or long form): the receiver must ignore anything presented
+	// before the CRLF and use the real connection endpoints
+	if len(tokens) >= 2 && tokens[1] == "UNKNOWN" {
+		header.TransportProtocol = UNSPEC
+		state.ProxyNormalV1Header.Inc(1)
+		return header, nil
+	}
+
+	if len(tokens) != 6 {
 		state.ProxyErrInvalidHeader.Inc(1)
 		return nil, ErrCantReadProtocolVersionAndCommand
 	}
-
-	header := initVersion1()
 
 	// Read address family and protocol
 	switch tokens[1] {
@@ -79,7 +88,8 @@ func parseVersion1(reader *bufio.Reader) (*Header, error) {
 	case "TCP6":
 		header.TransportProtocol = TCPv6
 	default:
-		header.TransportProtocol = UNSPEC
+		state.ProxyErrInvalidHeader.Inc(1)
+		return nil, ErrUnsupportedAddressFamilyAndProtocol
 	}
 
 	// Read addresses and ports
@@ -137,6 +147,11 @@ func (header *Header) writeVersion1(w io.Writer) (int64, error) {
 
 func parseV1PortNumber(portStr string) (uint16, error) {
 	var port uint16
+
+	// a decimal integer in the range [0..65535]; sign and heading zeroes are not permitted
+	if len(portStr) == 0 || portStr[0] == '+' || portStr[0] == '-' || (len(portStr) > 1 && portStr[0] == '0') {
+		return 0, ErrInvalidPortNumber
+	}
 
 	pval, err := strconv.Atoi(portStr)
 	if err == nil {
